@@ -3,6 +3,7 @@ empty/empty_like return seeded poison instead of whatever the allocator left beh
 Everything else forwards to numpy.  Oracle use is differential: the same case executed
 under two different poisons must give bit-identical observable results.
 """
+import os
 import sys
 import numpy as _np
 
@@ -51,6 +52,26 @@ class NpProxy:
     def empty_like(self, prototype, dtype=None, order="K", subok=True, shape=None, **kw):
         return _fill(_np.empty_like(prototype, dtype=dtype, order=order, subok=subok,
                                     shape=shape, **kw))
+
+
+    def fromfile(self, file, dtype=float, count=-1, sep="", offset=0, **kw):
+        # np.fromfile reads through a duplicate of the descriptor, bypassing the Python file object: a
+        # simulated unreadable region has to be honoured here.  fread() returns a short count on an I/O
+        # error and numpy returns the shorter array without complaint - that is what is modelled.
+        raw = getattr(file, "raw", file)
+        if isinstance(raw, core.FaultyRaw) and sep == "":
+            item = _np.dtype(dtype).itemsize
+            pos = file.tell() + offset
+            size = os.fstat(raw.fileno()).st_size
+            want = (size - pos) // item if count is None or count < 0 else count
+            can = raw.readable_span(pos, want * item) // item
+            if can < want and pos + can * item < size:
+                ctx = raw._ctx
+                ctx.faults_fired.append((-1, "read", raw._kind + ":fromfile-short", ctx.rel(core._path_of(raw._path)), ctx.actor))
+                ctx.stats["fault.read." + raw._kind + ".fromfile_short"] += 1
+                ctx.ev("fault", "read", raw._kind, "fromfile short", can, "of", want, ctx.actor)
+                count = can
+        return _np.fromfile(file, dtype=dtype, count=count, sep=sep, offset=offset, **kw)
 
 
 PROXY = NpProxy()
